@@ -22,6 +22,7 @@ func All() map[string]orch.Property {
 		&C10{},
 		&C11{},
 		&C16{},
+		&C17{},
 		&C18{},
 	} {
 		m[p.ID()] = p
